@@ -177,10 +177,29 @@ func (c *EvalCtx) eval(n *Node) Val {
 		return c.sel(n, c.eval(n.Kids[0]), n.Name)
 	case "index":
 		base := c.eval(n.Kids[0])
-		idx := c.evalTerm(n.Kids[1])
-		i, ok := idx.intVal()
-		if !ok {
-			specErr(n, "symbolic index not supported")
+		var i int64
+		if _, isMap := base.(MapV); !isMap {
+			idx := c.evalTerm(n.Kids[1])
+			var ok bool
+			i, ok = idx.intVal()
+			if !ok {
+				specErr(n, "symbolic index not supported")
+			}
+		}
+		_ = i
+		if m, isMap := base.(MapV); isMap {
+			if m.Cell == 0 {
+				specErr(n, "index of nil map")
+			}
+			ma := c.st.Heap[m.Cell].(*MapAgg)
+			k := keyIndex(ma, c.eval(n.Kids[1]))
+			if k < 0 {
+				if ma.Unknown {
+					specErr(n, "spec lookup of a key the code never touched in symbolic map %s", ma.Tag)
+				}
+				return NilV{}
+			}
+			return ma.Vals[k]
 		}
 		switch b := base.(type) {
 		case SliceV:
@@ -294,6 +313,9 @@ func (c *EvalCtx) valEq(n *Node, a, b Val) *T {
 		a, b = b, a
 	}
 	if _, ok := b.(NilV); ok {
+		if t, isT := a.(*T); isT && t.Sort == SBool {
+			return mkNot(t) // an absent map entry reads as the zero value
+		}
 		switch x := a.(type) {
 		case Ref:
 			return mkBool(x.isNil())
@@ -576,6 +598,72 @@ func (c *EvalCtx) call(n *Node) Val {
 			}
 		}
 		specErr(n, "len of %T", arg(0))
+	case "identifierize_of":
+		t, ok := arg(0).(Text)
+		if !ok {
+			specErr(n, "identifierize_of: string expected")
+		}
+		return atom(pureAtomName("(*Caser).Identifierize", []string{t.String()}))
+	case "call_result":
+		nm, _ := arg(0).(Text).concrete()
+		k, _ := c.evalTerm(n.Kids[1]).intVal()
+		tu, ok := c.st.Ghost["callret:"+nm].(Tuple)
+		if !ok || int(k) >= len(tu) {
+			specErr(n, "no recorded call of %s", nm)
+		}
+		return tu[k]
+	case "expected_tags":
+		sl, ok := arg(0).(SliceV)
+		if !ok {
+			specErr(n, "expected_tags: slice expected")
+		}
+		name := arg(1).(Text)
+		req := c.evalBool(n.Kids[2])
+		if !req.isConst() {
+			specErr(n, "expected_tags: required must be decided by the scenario")
+		}
+		out := Text{}
+		for k := 0; k < sl.Len_; k++ {
+			if k > 0 {
+				out = out.concat(lit(" "))
+			}
+			out = out.concat(c.st.load(sl.Arr.sub(sl.Lo + k)).(Text)).concat(lit(`:"`)).concat(name)
+			if req.isTrue() {
+				out = out.concat(lit(`"`))
+			} else {
+				out = out.concat(lit(`,omitempty"`))
+			}
+		}
+		return out
+	case "contains_str":
+		sl, ok := arg(0).(SliceV)
+		if !ok {
+			specErr(n, "contains_str: slice expected")
+		}
+		want := arg(1)
+		var alts []*T
+		for k := 0; k < sl.Len_; k++ {
+			alts = append(alts, c.valEq(n, c.st.load(sl.Arr.sub(sl.Lo+k)), want))
+		}
+		return mkOr(alts...)
+	case "last":
+		sl, ok := arg(0).(SliceV)
+		if !ok || sl.Len_ == 0 {
+			specErr(n, "last: non-empty slice expected")
+		}
+		return c.st.load(sl.Arr.sub(sl.Lo + sl.Len_ - 1))
+	case "is_nillable":
+		iv := iface(0)
+		if iv.Dyn == nil {
+			return tFalse
+		}
+		switch types.TypeString(iv.Dyn, func(p *types.Package) string { return p.Name() }) {
+		case "*codegen.PointerType", "codegen.PointerType", "*codegen.ArrayType", "codegen.ArrayType", "codegen.MapType", "*codegen.MapType", "codegen.EmptyInterfaceType", "codegen.NullType":
+			return tTrue
+		case "codegen.PrimitiveType", "*codegen.StructType":
+			return tFalse
+		}
+		specErr(n, "is_nillable: unknown type shape %s", iv.Dyn)
 	case "contains":
 		a, ok1 := arg(0).(Text)
 		b, ok2 := arg(1).(Text)
